@@ -110,12 +110,16 @@ void MutateMesh(Tape& t, Mesh& g, std::ostream& d) {
   }
 }
 
+// Overlapping / crossing contours violate the documented precondition of Extrude and
+// Revolve ("non-overlapping polygons"); for that class the result's topology is not judged
+// (garbage in, garbage out), only memory safety, termination, exceptions and error stickiness.
+bool gJudgeTopology = true;
 struct Sticky {
   Outcome& o;
   // result of an op on `src`; err = the status that must be preserved as "an error"
   bool check(const Manifold& src, const Manifold& r, const char* op) {
     oracle::TopoReport tr = oracle::CheckManifold(r);
-    if (!tr.ok) { o.fail(std::string("malformed:") + tr.sig, std::string("after ") + op + ": " + tr.msg); return false; }
+    if (!tr.ok && gJudgeTopology) { o.fail(std::string("malformed:") + tr.sig, std::string("after ") + op + ": " + tr.msg); return false; }
     if (src.Status() != Manifold::Error::NoError && r.Status() == Manifold::Error::NoError) {
       o.fail("malformed:error-not-sticky", verif::fmt("%s of a Manifold with Status %d returned NoError", op, int(src.Status())));
       return false;
@@ -159,13 +163,13 @@ bool FollowUps(Tape& t, Outcome& o, const Manifold& m0, std::ostream& d) {
       // known finding F28: SmoothOut of a zero-area mesh (e.g. the flat "hull" of
       // coplanar points, F12) produces NaN tangents
       oracle::TopoReport trs = oracle::CheckManifold(r);
-      if (!trs.ok && trs.sig == "topo:nonfinite") { o.known("F28-smoothout-zero-area", "malformed:topo:nonfinite", std::string("after SmoothOut of a zero-area mesh: ") + trs.msg); return false; }
+      if (!trs.ok && gJudgeTopology && trs.sig == "topo:nonfinite") { o.known("F28-smoothout-zero-area", "malformed:topo:nonfinite", std::string("after SmoothOut of a zero-area mesh: ") + trs.msg); return false; }
     }
     if (op == 5 || op == 17) {
       // known finding F25: hulls over many collinear/coplanar points can come out
       // with a doubled edge (see also F14); route exactly that signature
       oracle::TopoReport trh = oracle::CheckManifold(r);
-      if (!trh.ok && (trh.sig == "topo:duplicate-edge" || trh.sig == "topo:degenerate-tri")) { o.known("F25-hull-duplicate-edge", "malformed:topo:duplicate-edge", std::string("after ") + name + ": " + trh.msg); return false; }
+      if (!trh.ok && gJudgeTopology && (trh.sig == "topo:duplicate-edge" || trh.sig == "topo:degenerate-tri")) { o.known("F25-hull-duplicate-edge", "malformed:topo:duplicate-edge", std::string("after ") + name + ": " + trh.msg); return false; }
     }
     if (!st.check(m, r, name)) return false;
     // queries must be callable on anything
@@ -230,7 +234,11 @@ void ModeMesh(Tape& t, Outcome& o) {
 
 void ModeArgs(Tape& t, Outcome& o) {
   auto& d = o.desc;
-  int k = t.range(0, 21);
+  gJudgeTopology = true;
+  // one byte, as t.range(0, 21) reads it; the 14 wrapped values 242..255 select class 22 (added later:
+  // keeps every earlier replay tape decoding as before)
+  uint32_t rawK = t.byte();
+  int k = rawK >= 242 ? 22 : int(rawK % 22);
   Manifold m;
   Manifold base = Manifold::Cube(vec3(1.0), true);
   d << "args" << k << "(";
@@ -272,6 +280,39 @@ void ModeArgs(Tape& t, Outcome& o) {
       break;
     }
     case 103: { Polygons ps; int nc = t.range(0, 2); for (int c = 0; c < nc; ++c) { SimplePolygon p; int n = t.range(0, 6); for (int i = 0; i < n; ++i) p.push_back(vec2(D(), D())); ps.push_back(p); } int div = t.chance(200) ? t.range(-1, 8) : SpecialInt(t); if (div > 64) div = 64; m = Manifold::Extrude(ps, D(), div, D(), vec2(D(), D())); break; }
+    case 22: {
+      // contours that overlap or cross each other (outside the documented domain of
+      // Extrude/Revolve, moderate coordinates): must still give a closed mesh or an error
+      Polygons ps;
+      int nc = t.range(1, 3);
+      for (int c = 0; c < nc; ++c) {
+        SimplePolygon p; int n = t.range(3, 9);
+        double cx = t.real(0.2, 1.0), cy = t.real(-0.3, 0.3), r0 = t.real(0.1, 0.9);
+        for (int i = 0; i < n; ++i) { double a = 2 * M_PI * (i + 0.6 * t.unit()) / n, r = r0 * t.real(0.5, 1.0); p.push_back(vec2(cx + r * std::cos(a), cy + r * std::sin(a))); }
+        if (t.flip()) std::reverse(p.begin(), p.end());
+        ps.push_back(p);
+      }
+      if (t.flip()) {
+        // an outer contour with several holes that overlap each other (caps then triangulate badly:
+        // pinched vertices, doubled edges)
+        ps.clear();
+        nc = t.range(2, 4);
+        for (int c = 0; c < nc; ++c) {
+          SimplePolygon p; int n = t.range(3, 9);
+          double sc = c == 0 ? 1.0 : 0.25;
+          for (int i = 0; i < n; ++i) { double a = 2 * M_PI * (i + 0.2 + 0.6 * t.unit()) / n, r = sc * t.real(0.4, 1.0); p.push_back(vec2(r * std::cos(a), r * std::sin(a))); }
+          if (c > 0) std::reverse(p.begin(), p.end());
+          ps.push_back(p);
+        }
+      }
+      d << " [overlapping contours x" << nc << "]";
+      if (t.flip()) m = Manifold::Extrude(ps, t.real(0.2, 1.5), t.range(0, 3), t.real(-40, 40), vec2(t.real(0, 1.5), t.real(0, 1.5)));
+      else m = Manifold::Revolve(ps, t.range(3, 12), t.real(10, 380));
+      o.cls("overlapping-contours");
+      gJudgeTopology = false;
+      if (t.flip()) { d << " .CalculateNormals"; Manifold nm = m.CalculateNormals(0, t.real(0, 90)); (void)nm.NumTri(); (void)nm.GetMeshGL(); }
+      break;
+    }
     case 104: break;
     case 5: m = base.Translate(vec3(D(), D(), D())); break;
     case 6: m = base.Scale(vec3(D(), D(), D())); break;
@@ -293,7 +334,7 @@ void ModeArgs(Tape& t, Outcome& o) {
   }
   d << ")";
   oracle::TopoReport tr = oracle::CheckManifold(m);
-  if (!tr.ok) { o.fail("malformed:" + tr.sig, tr.msg); return; }
+  if (!tr.ok && gJudgeTopology) { o.fail("malformed:" + tr.sig, tr.msg); return; }
   o.cls(m.Status() == Manifold::Error::NoError ? "args-accepted" : "args-rejected");
   o.nontrivial = true;
   FollowUps(t, o, m, d);
@@ -379,6 +420,7 @@ void ModePoints(Tape& t, Outcome& o) {
 
 void Body(Tape& t, Outcome& o) {
   Quality::ResetToDefaults();
+  gJudgeTopology = true;
   int mode = t.range(0, 9);
   if (mode <= 5) ModeMesh(t, o);
   else if (mode <= 7) ModeArgs(t, o);
